@@ -548,7 +548,7 @@ def aad_of(protected_segment: bytes, aad: bytes | None) -> bytes:
 
 def jwe_encrypt(protected: dict, plaintext: bytes, recipients: list[dict], *, unprotected: dict | None = None,
                 aad: bytes | None = None, spell=None, iv: bytes | None = None, cek: bytes | None = None,
-                raw_deflate=deflate_raw, ops: dict | None = None):
+                raw_deflate=deflate_raw, ops: dict | None = None, mutate=None):
     """Independent JWE producer.
     recipients: [{"jwk":..., "header": {...} | None, "sender": jwk | None}]
     Returns a dict with every part (segments as bytes) from which compact / flattened / general forms are assembled.
@@ -576,6 +576,14 @@ def jwe_encrypt(protected: dict, plaintext: bytes, recipients: list[dict], *, un
                     r["header"] = {}
                 r["header"].update(extra)
         pre.append((r, alg, ek, eph))
+    if mutate is not None:
+        # last-minute edits of the headers (after key management ran with the good values, before authentication)
+        unprotected = dict(unprotected or {})
+        for r in recipients:
+            if r.get("header") is None:
+                r["header"] = {}
+        mutate(prot, unprotected, [r["header"] for r in recipients])
+        unprotected = unprotected or None
     iv = iv or os.urandom(ENC[enc][2])
     pt = raw_deflate(plaintext) if ops.get("zip", prot.get("zip")) == "DEF" else plaintext
     pseg = b64e(spell(prot))
